@@ -39,7 +39,7 @@ OUTCOMES = ('absent', 'true', 'false', 'raise')
 # "If you don't return True, circus will kill the process": any falsy answer
 # is a false one (None is what a hook without a return statement gives)
 FALSY = ('false', 'none', 'zero')
-OUTCOMES_WIDE = OUTCOMES + ('none', 'zero')
+OUTCOMES_WIDE = OUTCOMES + ('none', 'zero', 'raise-bare')
 SIGS = {"TERM": 15, "HUP": 1, "USR1": 10, "KILL": 9}
 GT = 0.3
 
@@ -154,7 +154,7 @@ def execute(case):
             if e["watcher"] != 'w':
                 continue
             c = per_hook_calls.setdefault(e["hook"], [0, 0])
-            c[0 if e["outcome"] != 'raise' else 1] += 1
+            c[0 if e["outcome"] not in ('raise', 'raise-bare') else 1] += 1
         per_hook_ev = {}
         for (t, wname, ev, body) in w.parsed_events('w'):
             if ev in ('hook_success', 'hook_failure'):
@@ -269,7 +269,7 @@ def execute(case):
                             s, sorted(old_pids), got_s)))
     finally:
         h.close()
-    nontrivial = any(v[0] in FALSY + ('raise', 'second-false')
+    nontrivial = any(v[0] in FALSY + ('raise', 'raise-bare', 'second-false')
                      for v in hooks.values())
     seen = set()
     out = []
@@ -308,11 +308,12 @@ def start_cases():
 def start_cases_falsy():
     """One start-phase hook answering None / 0 (the others absent or true)."""
     for i, hn in enumerate(START_HOOKS):
-        for out in ('none', 'zero'):
+        for out, flag in (('none', False), ('zero', False),
+                          ('raise-bare', False), ('raise-bare', True)):
             for others in ('absent', 'true'):
                 hooks = dict((h2, [others, False]) for h2 in START_HOOKS
                              if others != 'absent')
-                hooks[hn] = [out, False]
+                hooks[hn] = [out, flag]
                 for worker in ('obedient', 'stubborn'):
                     for np_ in (1, 2):
                         for reqname in ('start', 'restart', 'daemon-start'):
